@@ -25,7 +25,12 @@ Templates == <<
   << S("GROUP = g a = 1 END_GROUP "), S(" b = 2 END") >>,                                                              \* after an end keyword
   << S("GROUP = g a = 1 END_GROUP = "), S("g b = 2 END") >>,                                                           \* before the name of an end statement
   << S("a = {1, "), S("2} b = <") >>,                                                                                  \* in a set
-  << S("a = 1 <m> b"), S(" = 2 END") >>                                                                                \* after a name, before '='
+  << S("a = 1 <m> b"), S(" = 2 END") >>,                                                                               \* after a name, before '='
+  << <<>>, S("a = 1") \o <<10>> \o S("END") \o <<10>> >>,                                                               \* very first character, glued to a name
+  << <<>>, <<32>> \o S("a = 1 END") >>,                                                                                \* very first character, alone
+  << S("a = 1 "), <<>> >>,                                                                                              \* very last character
+  << S("a = 1") \o <<13>> \o S("b = 2") \o <<13>> \o S("c = "), <<10>> \o S("END") >>,                                    \* after lone carriage returns (they do not count as lines)
+  << S("a = 1") \o <<13, 10>> \o S("b = 'x") \o <<13, 10>> \o S("y' c = 3 "), S(" END") >>                              \* after CR-LF line ends, one of them inside a string
 >>
 VARIABLES tpl, cp
 Init == tpl \in 1..Len(Templates) /\ cp \in CodePoints
